@@ -41,3 +41,37 @@ fn c04_ordfloat_eq_implies_cmp_equal() {
         assert!(a.cmp(&b) == Ordering::Equal);
     }
 }
+
+// ---- C04.sortkey.float — the Float arm of Value::sortable_key / OrderedKey::from_sortable_key.
+// The functions build strings with format!, which CBMC cannot execute symbolically, so the arithmetic
+// statements are pasted verbatim from the real functions at sync time (//@paste) into these wrappers.
+fn float_sort_key(v: &f64) -> u64 {
+//@paste file=relational_engine/src/lib.rs fn=sortable_key impl=Value :: let bits = v.to_bits(); || let sortable = if
+    sortable
+}
+fn float_from_sort_key(sortable: u64) -> u64 {
+//@paste file=relational_engine/src/lib.rs fn=from_sortable_key impl=OrderedKey :: let bits = if
+    bits
+}
+
+#[kani::proof]
+fn c04_float_sort_key_monotone() {
+    let a: f64 = kani::any();
+    let b: f64 = kani::any();
+    kani::assume(!a.is_nan() && !b.is_nan());
+    // strictly increasing on IEEE order, so lexicographic order of the fixed-width hex equals numeric order
+    if a < b {
+        assert!(float_sort_key(&a) < float_sort_key(&b));
+    }
+    // distinct bit patterns get distinct keys (the persisted key identifies the value)
+    if a.to_bits() != b.to_bits() {
+        assert!(float_sort_key(&a) != float_sort_key(&b));
+    }
+}
+
+#[kani::proof]
+fn c04_float_sort_key_roundtrip() {
+    // every f64 bit pattern, including -0.0 and all NaNs
+    let a: f64 = kani::any();
+    assert!(float_from_sort_key(float_sort_key(&a)) == a.to_bits());
+}
